@@ -13,7 +13,8 @@ package main
 //
 // <gres> router-wide resolver: none | ok | fail | wrapno     (wrapno: an error wrapping ErrNoClientIPResolver)
 // <rres> per-route override:   inherit | ok2 | fail | nil | wrapno
-// <cust> 1: NoRoute/NoMethod/Options handlers are the behaviour handler, 0: fox's defaults
+// <cust> 1: NoRoute/NoMethod/Options handlers are the behaviour handler, 0: fox's defaults; 2 / 3: the same with a
+//        CloneWith-wrapping middleware registered before the Logger
 //
 // item = kind,method,host hex,URL.Path hex,URL.RawPath hex,RemoteAddr hex,expected RemoteIP string hex,behaviour
 // kind = route | noroute | nomethod | redir | redir2 | options   (what the request is built to hit; echoed by the model)
@@ -158,8 +159,19 @@ func lgResolver(kind string) fox.ClientIPResolver {
 	return nil
 }
 
-func lgRouter(withLogger bool, cap *lgCapture, trace *[]string, gres, rres string, cust bool) (*fox.Router, error) {
+func lgRouter(withLogger bool, cap *lgCapture, trace *[]string, gres, rres string, cust, wrap bool) (*fox.Router, error) {
 	var opts []fox.GlobalOption
+	if wrap {
+		// a writer-wrapping middleware registered before the Logger: the Logger (and everything after it) runs on a CloneWith
+		// copy of the context and must report exactly what it reports on the original
+		opts = append(opts, fox.WithMiddlewareFor(fox.AllHandlers, func(next fox.HandlerFunc) fox.HandlerFunc {
+			return func(c fox.Context) {
+				cc := c.CloneWith(c.Writer(), c.Request())
+				defer cc.Close()
+				next(cc)
+			}
+		}))
+	}
 	if withLogger {
 		opts = append(opts, fox.WithMiddlewareFor(fox.AllHandlers, fox.LoggerWithHandler(cap)))
 	}
@@ -246,14 +258,14 @@ func runLogger(fields []string) string {
 	}
 	// the recorder reports superfluous WriteHeader calls through the global logger: keep stderr quiet
 	lgOnce.Do(func() { log.SetOutput(io.Discard) })
-	gres, rres, cust := fields[2], fields[3], fields[4] == "1"
+	gres, rres, cust, wrap := fields[2], fields[3], fields[4] == "1" || fields[4] == "3", fields[4] == "2" || fields[4] == "3"
 	var trace, trace2 []string
 	cap := &lgCapture{trace: &trace}
-	withL, err := lgRouter(true, cap, &trace, gres, rres, cust)
+	withL, err := lgRouter(true, cap, &trace, gres, rres, cust, wrap)
 	if err != nil {
 		return "I=bad-router:" + err.Error()
 	}
-	without, err := lgRouter(false, nil, &trace2, gres, rres, cust)
+	without, err := lgRouter(false, nil, &trace2, gres, rres, cust, wrap)
 	if err != nil {
 		return "I=bad-router:" + err.Error()
 	}
@@ -421,6 +433,10 @@ func genLogger(r *Rng, tier string, n int, emit func(string)) {
 		c := "0"
 		if cust {
 			c = "1"
+		}
+		if r.Chance(30) {
+			// + a CloneWith-wrapping middleware in front of the Logger
+			c = string(rune(c[0] + 2))
 		}
 		emit("logger\t" + strings.Join(items, ";") + "\t" + gres + "\t" + rres + "\t" + c)
 	}
